@@ -615,6 +615,16 @@ func (g *gen) strExpr(d int) ex {
 	case 14:
 		return ex{s: "h5" + g.args(r.Intn(2), d), p: pCall, call: true}
 	case 15:
+		if r.Chance(1, 4) {
+			// a parenthesised decimal literal whose shortened form is a plain integer, followed by a member access: the
+			// printer must write a second dot (or keep the parentheses)
+			lit := r.Pick("1.0", "10.0", "5.", "2.00", "100.0", "3.0e0", "12.50e1", "7.0", "0.0", "1e0", "20e-1", "0.5", "2e3", "1.5")
+			acc := r.Pick(".toFixed(1)", ".toString()", ".toString(2)", ".constructor===Number", "[\"toFixed\"](2)", ".toFixed(2)")
+			if g.level >= 2020 && r.Chance(1, 6) {
+				acc = "?.toString()"
+			}
+			return ex{s: "(" + lit + ")" + acc, p: pCall, call: true}
+		}
 		n := g.expr(kNum, d-1)
 		ns := g.w(n, pCall)
 		if n.num {
